@@ -26,6 +26,17 @@ func init() {
 		Mutant{Name: "n27-autoincrement-flags-in-helper-before-publication", Property: "*", Rule: "NEUTRAL", Edits: []Edit{
 			{"schema/schema.go", "\t\t\t\tfield.HasDefaultValue = true\n\t\t\t\tfield.AutoIncrement = true\n", "\t\t\t\tmarkAutoIncrement(field)\n"},
 			{"schema/schema.go", "// Parse get data type from dialector\n", "func markAutoIncrement(field *Field) {\n\tfield.HasDefaultValue = true\n\tfield.AutoIncrement = true\n}\n\n// Parse get data type from dialector\n"}}},
+		Mutant{Name: "c06-clone-preloads-copied-only-with-schema", Property: "C06", Rule: "C06.clone", Edits: []Edit{{"statement.go",
+			"\tfor k, p := range stmt.Preloads {\n\t\tnewStmt.Preloads[k] = p\n\t}\n", "\tif stmt.Schema != nil {\n\t\tfor k, p := range stmt.Preloads {\n\t\t\tnewStmt.Preloads[k] = p\n\t\t}\n\t}\n"}}},
+		Mutant{Name: "c06-clone-joins-copied-unless-unscoped", Property: "C06", Rule: "C06.clone", Edits: []Edit{{"statement.go",
+			"\tif len(stmt.Joins) > 0 {\n\t\tnewStmt.Joins = make(", "\tif len(stmt.Joins) > 0 && !stmt.Unscoped {\n\t\tnewStmt.Joins = make("}}},
+		Mutant{Name: "c19-clone-raw-sql-dropped-with-skiphooks", Property: "C19", Rule: "C19.keep", Edits: []Edit{{"statement.go",
+			"\tif stmt.SQL.Len() > 0 {\n\t\tnewStmt.SQL.WriteString(", "\tif stmt.SQL.Len() > 0 && !stmt.SkipHooks {\n\t\tnewStmt.SQL.WriteString("}}},
+		Mutant{Name: "c06-clone-raw-vars-not-copied", Property: "C06", Rule: "C06.clone", Edits: []Edit{{"statement.go",
+			"\t\tnewStmt.Vars = append(newStmt.Vars, stmt.Vars...)\n", ""}}},
+		Mutant{Name: "n28-clone-guards-spelled-differently", Property: "*", Rule: "NEUTRAL", Edits: []Edit{
+			{"statement.go", "\tif stmt.SQL.Len() > 0 {\n\t\tnewStmt.SQL.WriteString(", "\tif stmt.SQL.Len() != 0 {\n\t\tnewStmt.SQL.WriteString("},
+			{"statement.go", "\tif len(stmt.Joins) > 0 {\n\t\tnewStmt.Joins = make([]join, len(stmt.Joins))", "\tif stmt.Joins != nil {\n\t\tnewStmt.Joins = make([]join, len(stmt.Joins))"}}},
 		Mutant{Name: "n24-dry-run-guard-through-predicate", Property: "*", Rule: "NEUTRAL", Edits: []Edit{
 			{"callbacks/raw.go", "\tif db.Error == nil && !db.DryRun {", "\tif shouldSend(db) {"},
 			{"callbacks/raw.go", "func RawExec(db *gorm.DB) {", "func shouldSend(db *gorm.DB) bool { return db.Error == nil && !db.DryRun }\n\nfunc RawExec(db *gorm.DB) {"}}},
